@@ -36,7 +36,7 @@ func runC10(c *Ctx) {
 	c.Rule("DIRECT-FLAG", "first-hop dependencies are direct, deeper ones are not, and the first classification sticks", 3)
 	c.Rule("AMBIGUITY-RETURNED", "cycle / duplicate-path / missing-import / no-proto-files errors are returned, never skipped", 6)
 	c.Rule("WKT-NARROW", "an unresolvable import is tolerated only for built-in well-known types", 1)
-	c.Rule("PREFERENCE-CHAIN", "duplicates of a module are reduced target → local → newest remote", 5)
+	c.Rule("PREFERENCE-CHAIN", "duplicates of a module are reduced target → local → newest remote", 3)
 	c.Rule("LSFILES-CLOSURE", "ls-files computes a seen-set closure over imports and sorts it", 2)
 	c.Rule("R-ERRUSE", "error results are consumed (bufmodule, bufworkspace, buftarget)", 100)
 	pk := p.Pkg("private/bufpkg/bufmodule")
@@ -300,66 +300,106 @@ func runC10(c *Ctx) {
 		c.Fail("AMBIGUITY-RETURNED", "getModuleForFilePathUncached", token.NoPos, "not found")
 	}
 
-	// (5) preference chain
-	chain := []struct{ fn, pred, next string }{
-		{"selectAddedModuleForOpaqueID", "IsTarget", "selectAddedModuleForOpaqueIDIgnoreTargeting"},
-		{"selectAddedModuleForOpaqueIDIgnoreTargeting", "IsLocal", "selectRemoteAddedModuleForOpaqueIDIgnoreTargeting"},
-	}
-	for _, st := range chain {
-		fr := p.Func("private/bufpkg/bufmodule", st.fn)
-		if fr == nil {
-			c.Fail("PREFERENCE-CHAIN", st.fn, token.NoPos, "not found")
-			continue
-		}
-		var filtered types.Object
-		okPred := false
-		ast.Inspect(fr.Decl.Body, func(n ast.Node) bool {
-			as, ok := n.(*ast.AssignStmt)
-			if !ok || len(as.Rhs) != 1 {
-				return true
+	// (5) preference chain, on SSA and by shape: starting at the selection entry point and following the package's own
+	// functions in call order, candidates are narrowed by a Filter on IsTarget first and by a Filter on IsLocal after
+	// it, and every `return xs[i]` hands back an element of a Filter result - never of an unnarrowed list. How the
+	// stages are cut into functions (one function, or a helper per stage) does not matter.
+	if entry := p.Func("private/bufpkg/bufmodule", "selectAddedModuleForOpaqueID"); entry != nil && entry.Obj != nil {
+		esf := p.SSAFunc(entry.Obj)
+		predOf := func(call *ssa.CallCommon) string {
+			o := staticCalleeObj(call)
+			if o == nil || o.Name() != "Filter" || len(call.Args) != 2 {
+				return ""
 			}
-			call, ok := as.Rhs[0].(*ast.CallExpr)
-			if !ok || len(call.Args) != 2 {
-				return true
-			}
-			if fn := Callee(info, call); fn == nil || fn.Name() != "Filter" {
-				return true
-			}
-			// (*addedModule).IsTarget method expression
-			if sel, ok := call.Args[1].(*ast.SelectorExpr); ok && sel.Sel.Name == st.pred {
-				okPred = true
-				filtered = identObj(info, as.Lhs[0])
-			}
-			return true
-		})
-		c.Ob("PREFERENCE-CHAIN", st.fn+"/filter", fr.Decl.Pos(), okPred, true, "filters its candidates by the method value (*addedModule).%s: %v", st.pred, okPred)
-		// calls only the next stage; non-empty arms return an element of the filtered slice
-		okNext, okElem := true, true
-		calls := 0
-		ast.Inspect(fr.Decl.Body, func(n ast.Node) bool {
-			switch x := n.(type) {
-			case *ast.CallExpr:
-				if fn := Callee(info, x); fn != nil && fn.Pkg() == pk.Types && strings.HasPrefix(fn.Name(), "select") {
-					calls++
-					if fn.Name() != st.next {
-						okNext = false
-					}
+			name := ""
+			sliceBack(call.Args[1], func(x ssa.Value) bool {
+				var fn *ssa.Function
+				switch t := x.(type) {
+				case *ssa.Function:
+					fn = t
+				case *ssa.MakeClosure:
+					fn, _ = t.Fn.(*ssa.Function)
 				}
-			case *ast.ReturnStmt:
-				if len(x.Results) == 2 {
-					if ix, ok := x.Results[0].(*ast.IndexExpr); ok {
-						if identObj(info, ix.X) != filtered {
-							okElem = false
+				if fn != nil {
+					if obj := fn.Object(); obj != nil && (obj.Name() == "IsTarget" || obj.Name() == "IsLocal") {
+						name = obj.Name()
+					}
+					for _, cc := range callsDeep(fn) {
+						if co := staticCalleeObj(cc.Call); co != nil && (co.Name() == "IsTarget" || co.Name() == "IsLocal") && name == "" {
+							name = co.Name()
 						}
 					}
 				}
-			}
-			return true
-		})
-		c.Ob("PREFERENCE-CHAIN", st.fn+"/next-stage", fr.Decl.Pos(), okNext && calls > 0, true, "falls through only to %s (%d call(s)); indexed returns come from the filtered slice: %v", st.next, calls, okElem)
-		if !okElem {
-			c.Ob("PREFERENCE-CHAIN", st.fn+"/returns-filtered-element", fr.Decl.Pos(), false, true, "a return indexes a slice other than the filtered one")
+				return true
+			})
+			return name
 		}
+		var order []string
+		var stages []*ssa.Function
+		seenFn := map[*ssa.Function]bool{}
+		var visit func(f *ssa.Function)
+		visit = func(f *ssa.Function) {
+			if f == nil || seenFn[f] || len(f.Blocks) == 0 {
+				return
+			}
+			seenFn[f] = true
+			stages = append(stages, f)
+			for _, call := range callsIn(f) {
+				if pn := predOf(call.Call); pn != "" {
+					order = append(order, pn)
+				}
+				if sc := call.Call.StaticCallee(); sc != nil && sc.Pkg == f.Pkg && strings.HasPrefix(sc.Name(), "select") {
+					visit(sc)
+				}
+			}
+		}
+		visit(esf)
+		firstTarget, firstLocal := -1, -1
+		for i, o := range order {
+			if o == "IsTarget" && firstTarget < 0 {
+				firstTarget = i
+			}
+			if o == "IsLocal" && firstLocal < 0 {
+				firstLocal = i
+			}
+		}
+		c.Ob("PREFERENCE-CHAIN", "selection/filter-order", entry.Decl.Pos(), firstTarget >= 0 && firstLocal > firstTarget, true, "candidates are narrowed by IsTarget and then by IsLocal (filters met in call order: %v)", order)
+		okElem, nIdx := true, 0
+		for _, f := range stages {
+			// only the stages that narrow by a predicate; the last stage works on what it was given
+			narrows := false
+			for _, call := range callsIn(f) {
+				if predOf(call.Call) != "" {
+					narrows = true
+				}
+			}
+			if !narrows {
+				continue
+			}
+			for _, r := range returnsOf(f) {
+				if len(r.Results) != 2 {
+					continue
+				}
+				u, ok := stripConv(r.Results[0]).(*ssa.UnOp)
+				if !ok {
+					continue
+				}
+				ia, ok := u.X.(*ssa.IndexAddr)
+				if !ok {
+					continue
+				}
+				nIdx++
+				base, isCall := stripConv(ia.X).(*ssa.Call)
+				if !isCall || predOf(&base.Call) == "" {
+					okElem = false
+				}
+			}
+		}
+		c.Ob("PREFERENCE-CHAIN", "selection/returns-filtered-element", entry.Decl.Pos(), okElem && nIdx >= 2, true, "%d returns hand back an indexed element, each of a list narrowed by IsTarget or IsLocal: %v", nIdx, okElem)
+		last := stages[len(stages)-1]
+		c.Ob("PREFERENCE-CHAIN", "selection/last-stage", entry.Decl.Pos(), len(stages) >= 2 && strings.Contains(strings.ToLower(last.Name()), "remote"), true, "the chain ends in the resolution between remote modules (%s), %d stage function(s)", last.Name(), len(stages))
+	} else {
+		c.Fail("PREFERENCE-CHAIN", "selectAddedModuleForOpaqueID", token.NoPos, "not found")
 	}
 	// single entry
 	callers := map[string]bool{}
